@@ -338,7 +338,9 @@ def val_eq(it, fr, l, r):
     if is_numkind(l) and is_numkind(r):
         return num_cmp('==', as_num(l), as_num(r))
     if isinstance(l, SLowered) or isinstance(r, SLowered):
-        return lowered_eq(it, l, r)
+        e = lowered_eq(it, l, r)
+        if e is not None:
+            return e
     tl, tr = pytype_of(l), pytype_of(r)
     fl, fr_ = _family(tl), _family(tr)
     if fl != fr_:
@@ -414,13 +416,31 @@ def dict_eq(it, fr, a, b):
     return z3.And(covered(sa, sb), covered(sb, sa))
 
 
+def materialise_case(it, lw):
+    """characters of s.lower() / s.upper() as fresh variables (see SLowered)"""
+    eng = it.eng
+    src, low = lw.src, lw.tab == 'lowfix'
+    odd = any_char(src, lambda c: z3.And(c >= 128, z3.Not(CT.cp(lw.tab, c))))
+    if eng.fork(odd):
+        raise Unsupported('case mapping of a non-ASCII cased character (not tabulated)')
+    out, cons = [], []
+    for i, c in enumerate(src.chars):
+        d = z3.Int(f'{lw.name}#{i}') if lw.name else eng.fresh('case', z3.IntSort())
+        asc = z3.If(z3.And(c >= 65, c <= 90), c + 32, c) if low else z3.If(z3.And(c >= 97, c <= 122), c - 32, c)
+        cons.append(z3.If(c < 128, d == asc, CT.char_eq(d, c)))
+        cons.append(CT.char_domain(d))
+        out.append(d)
+    eng.add(*cons)
+    return out
+
+
 def lowered_eq(it, l, r):
     if isinstance(l, SLowered) and r is l.src:
-        src, tab = l.src, l.__dict__.get('tab', 'lowfix')
+        src, tab = l.src, l.tab
     elif isinstance(r, SLowered) and l is r.src:
-        src, tab = r.src, r.__dict__.get('tab', 'lowfix')
+        src, tab = r.src, r.tab
     else:
-        raise Unsupported('lower()/upper() result compared with something other than its source')
+        return None
     return memo(('lowfix', tab, src.name, src.L) if src.name else object(),
                 lambda: all_chars(src, lambda c: CT.cp(tab, c)))
 
@@ -1631,9 +1651,6 @@ def sym_method(it, fr, obj, attr, args, kw):
     eng = it.eng
     if isinstance(obj, SStr):
         return sstr_method(it, fr, obj, attr, args, kw)
-    if isinstance(obj, SLowered):
-        if attr in ('lower', 'upper') or True:
-            raise Unsupported('method on lower()/upper() result: ' + attr)
     if isinstance(obj, SText):
         if attr == 'encode':
             from .stubs import text_encode
@@ -1700,11 +1717,9 @@ def sstr_method(it, fr, s, attr, args, kw):
     if attr == 'isupper' and not args:
         raise Unsupported('str.isupper')
     if attr == 'lower' and not args:
-        return SLowered(s)
+        return SLowered(s, it, 'lowfix')
     if attr == 'upper' and not args:
-        r = SLowered(s)
-        r.tab = 'upfix'
-        return r
+        return SLowered(s, it, 'upfix')
     if attr == 'encode':
         enc = args[0] if args else kw.get('encoding', 'utf-8')
         errors = args[1] if len(args) > 1 else kw.get('errors', 'strict')
